@@ -5,7 +5,7 @@ from . import estprops
 
 def _hist(ctx):
     # history() clauses (C16_hist_*) are judged on the carver traces
-    cc.design_runs(ctx, ['Inv_C16_hist'])
+    cc.design_runs(ctx, ['Inv_C16_hist'], thorough=cc.DESIGN_QUICK + ['MC_Carver_nan_thorough.cfg', 'MC_Carver_kruskal_thorough.cfg'])
     cc.carver_pipeline(ctx, 'C16_', n_random_quick=250, n_random_thorough=2500, exhaustive=(ctx.tier != 'quick'))
 
 
